@@ -96,8 +96,26 @@ func mobileIdentity(b []byte) *nasType.MobileIdentity5GS {
 	return &nasType.MobileIdentity5GS{Len: uint16(len(b)), Buffer: b}
 }
 
+// miGetter: the getter on an element holding b, called twice on the same element: a getter is a read, so the second call answers
+// like the first and the element's contents are what they were (anything else is appended to the answer and fails the oracle)
 func miGetter(g string, b []byte) string {
-	m := mobileIdentity(b)
+	orig := append([]byte{}, b...)
+	m := mobileIdentity(append([]byte{}, b...))
+	first := miGetter1(g, m)
+	if first == "bad-op" {
+		return first
+	}
+	second := miGetter1(g, m)
+	if second != first {
+		return first + " !second-call:" + strings.ReplaceAll(second, " ", "_")
+	}
+	if !bytes.Equal(m.Buffer, orig) || int(m.Len) != len(orig) {
+		return first + " !contents-changed:" + hexs(m.Buffer)
+	}
+	return first
+}
+
+func miGetter1(g string, m *nasType.MobileIdentity5GS) string {
 	switch g {
 	case "type":
 		s, err := m.GetTypeOfIdentity()
@@ -599,10 +617,19 @@ func (g *Gen) mutate(b []byte) []byte {
 func (g *Gen) validNssai() []byte {
 	var b []byte
 	n := 1 + g.Intn(8)
+	// half of the lists draw their octets from a pool of two values, so that entries repeat or differ in one component only
+	// (the same SST / SD with and without a mapped part, in either order)
+	pool := g.Intn(2) == 0
 	for i := 0; i < n; i++ {
 		l := []int{1, 2, 4, 5, 8}[g.Intn(5)]
 		b = append(b, byte(l))
-		b = append(b, g.Bytes(l)...)
+		c := g.Bytes(l)
+		if pool {
+			for k := range c {
+				c[k] = []byte{1, 2}[g.Intn(2)]
+			}
+		}
+		b = append(b, c...)
 	}
 	return b
 }
